@@ -88,6 +88,39 @@ def run_mit_cross(seed, n=40):
         shutil.rmtree(wd, ignore_errors=True)
 
 
+def mit_reads_gokrb5_keytabs(wd, image_lines, limit=300):
+    """gokrb5's keytab WRITER against MIT's reader: the files Keytab.Marshal produced (field remarshal of the image lines of the C14
+    trace) are read by MIT; TLC (TraceC14!MITReOK) requires the entries of the model.  Returns (statistics, rejected lines)."""
+    exe = build_mitref()
+    if exe is None:
+        return {"available": False}, []
+    def in_mit_domain(m):
+        return all(it["kind"] == "hole" or (it["comps"] and all(it["comps"]) and it["realm"] and it["key"]) for it in m["items"])
+    sel = [x for x in image_lines if x.get("remarshal") and not x["err"] and in_mit_domain(x["model"])][:limit]
+    if not sel:
+        return {"available": True, "files": 0, "rejected_lines": 0}, []
+    d = os.path.join(wd, "ktre")
+    os.makedirs(d, exist_ok=True)
+    reqs = []
+    for i, x in enumerate(sel):
+        f = os.path.join(d, "r%d.keytab" % i)
+        open(f, "wb").write(bytes.fromhex(x["remarshal"]))
+        reqs.append("kt " + f)
+    outs = mit(exe, reqs)
+    shutil.rmtree(d, ignore_errors=True)
+    lines = [{"ev": "mitre", "model": x["model"], "image": x["remarshal"], "rc": o["rc"], "entries": o["entries"]} for x, o in zip(sel, outs)]
+    trace = os.path.join(wd, "trace.ndjson")
+    keep = trace + ".keep6"
+    os.rename(trace, keep)
+    try:
+        vlib.write_ndjson(trace, lines)
+        res = vlib.tlc_or_die(wd, "TraceC14", timeout=1800)
+        bad = sorted(int(v) for v in res.tags("BADLINE"))
+    finally:
+        os.replace(keep, trace)
+    return {"available": True, "files": len(lines), "entries": sum(len(x["entries"]) for x in lines), "rejected_lines": len(bad)}, [lines[i - 1] for i in bad]
+
+
 def mit_keytab_cross(wd, limit=300):
     """KeytabFormat (the independent writer of C14) against MIT's keytab reader: the images of wd/images.ndjson are written to files,
     read by MIT, and TLC (TraceC14!MITOK) compares what MIT read with what the model says was written."""
